@@ -9,6 +9,7 @@ import Driver.CmdNoisy
 import Driver.CmdHist
 import Driver.CmdVal
 import Driver.CmdTr
+import Driver.CmdGP
 open Lean Driver
 
 def dispatch (cmd : String) (j : Json) : R Json :=
@@ -29,6 +30,8 @@ def dispatch (cmd : String) (j : Json) : R Json :=
   | "val.run" => cmdValRun j
   | "fl.ops" => cmdFlOps j
   | "tr.coord" => cmdTrCoord j
+  | "gp.neighbors" => cmdGpNeighbors j
+  | "gp.robust" => cmdGpRobust j
   | _ => throw s!"unknown command '{cmd}'"
 
 def handleLine (line : String) : String :=
